@@ -20,6 +20,10 @@ strata window x fault (windows: ask-handover-blocked, ask-handoff-blocked, ask-q
 plain-inflight); all 30 are replayed on a real processor every run (harness c11-fault), the window confirmed from the hook
 points of the real connection and from what the node received; oracle as above plus: every waiting client gets its replies
 or a close.
+Near-redirections (Malformed.tla NearRedirects / FoldRedirects): error replies whose first word equals MOVED / ASK / CLUSTERDOWN only
+under Unicode simple case folding (long s U+017F, Kelvin sign U+212A), in mixed ASCII case, or merely starts with a verb; as the
+reply to a keyed command, to a child of a split MGET (ctx keyed-child), to SCAN, to the proxy's own READONLY / ASKING and to the
+refresher's CLUSTER NODES; for the latter the waiting party is the refresher: it must start another round (counter slots_refresh.total).
 Spec modules owned: spec/redis/Malformed.tla, DecodeStack.tla, BackendFault.tla and their MC_*.cfg.
 This is exploration with a TLA+-generated corpus: the structural partition is exhaustive, the byte strings are not.
 """
@@ -179,6 +183,10 @@ def run_vectors(ctx, vecs):
         if x.get("recover"):
             bad = True
             ctx.violation("backend-not-usable-again/%s/%s/%s" % (v["side"], v["ctx"], cls), "%s: %s" % (x["vec"], x["recover"]), {"vector": v, "result": x})
+        if x.get("refresh"):
+            # the waiting party here is the proxy's own slot refresher: its CLUSTER NODES request never got an answer
+            bad = True
+            ctx.violation("wedged/%s/%s/%s" % (v["side"], v["ctx"], cls), "%s: %s" % (x["vec"], x["refresh"]), {"vector": v, "result": x})
         if x["stackMB"] > STACK_LIMIT_MB:
             bad = True
             ctx.violation("stack-unbounded/%s/%s/%s" % (v["side"], v["ctx"], cls), "%s: %d MiB of stack in use" % (x["vec"], x["stackMB"]), {"vector": v, "result": x})
